@@ -655,7 +655,7 @@ func checkC04(c *Ctx) {
 func stuckTasks(w *world.World) []string {
 	var out []string
 	for _, t := range w.S.Tasks() {
-		if strings.Contains(t, "client") || strings.Contains(t, "probe") {
+		if strings.Contains(t, "client") || strings.Contains(t, "probe") || strings.Contains(t, "hostile") || strings.Contains(t, "matrix") || strings.Contains(t, "reader") {
 			out = append(out, t)
 		}
 	}
